@@ -313,6 +313,15 @@ Fixpoint read_bytes (res : list rres) : list Z :=
   | _ :: t => read_bytes t
   end.
 
+(* bytes consumed by the reader's calls (reads and skips) *)
+Fixpoint consumed (res : list rres) : Z :=
+  match res with
+  | [] => 0
+  | RrRead n _ :: t => n + consumed t
+  | RrSkip n :: t => n + consumed t
+  | _ :: t => consumed t
+  end.
+
 Definition no_skip (res : list rres) : bool :=
   forallb (fun r => match r with RrSkip n => n =? 0 | _ => true end) res.
 
